@@ -170,3 +170,17 @@ impl Journal {
         }
     }
 }
+
+/// text of a caught panic payload; the silenced hook's record of message and site (same thread) when there is one
+pub fn payload_text(p: &Box<dyn std::any::Any + Send>) -> String {
+    if let Some(s) = LAST_PANIC.with(|l| l.borrow_mut().take()) {
+        return s;
+    }
+    if let Some(s) = p.downcast_ref::<&str>() {
+        s.to_string()
+    } else if let Some(s) = p.downcast_ref::<String>() {
+        s.clone()
+    } else {
+        "<non-string panic payload>".into()
+    }
+}
